@@ -6,4 +6,5 @@ import "github.com/aml-org/amf-custom-validator/verifh/core"
 var Checks = map[string]func(*core.Env){
 	"C18": C18,
 	"C16": C16,
+	"C02": C02,
 }
